@@ -18,7 +18,7 @@ DOCUMENTED = (
 
 def get_type(key):
     """key = 'module:qualname' (types are never looked up by bare name, see DESIGN 2.1)"""
-    mod, name = key.split(":")
+    mod, name = key.split("#")[0].split(":")
     return getattr(importlib.import_module(mod), name)
 
 
@@ -26,9 +26,35 @@ def type_key(t):
     return "%s:%s" % (t.__module__, t.__qualname__)
 
 
-def decode(tpm_type, buf, strict=True, command_code=None, parameter_encryption=None):
-    """-> (events, error or None, returned object or None). Only documented errors are caught."""
-    events = []
+def error_details(err):
+    """Snapshot of everything an error says (taken when the error is observed: the SizeConstraint
+    object an error refers to keeps counting while warn-mode decoding goes on)."""
+    d = {"class": type(err).__name__}
+    c = getattr(err, "constraint", None)
+    if c is not None:
+        d["constraint_path"] = str(c.constraint_path)
+        if hasattr(c, "size_max"):
+            d["size_max"] = c.size_max
+            d["size_already"] = c.size_already
+        if hasattr(c, "tpm_type"):
+            d["tpm_type"] = c.tpm_type
+    for a in ("violator_path",):
+        if hasattr(err, a):
+            d[a] = str(getattr(err, a))
+    for a in ("exceeded_by", "violator_value", "value", "command_code"):
+        if hasattr(err, a):
+            d[a] = getattr(err, a)
+    return d
+
+
+class Decoded:
+    __slots__ = ("events", "err", "crash", "obj", "snaps")
+
+
+def decode_full(tpm_type, buf, strict=True, command_code=None, parameter_encryption=None):
+    """Runs the real decoder to its end. Documented errors -> .err, anything else -> .crash."""
+    r = Decoded()
+    r.events, r.err, r.crash, r.obj, r.snaps = [], None, None, None, {}
     gen = Binary.marshal(
         tpm_type=tpm_type,
         buffer=buf,
@@ -36,13 +62,25 @@ def decode(tpm_type, buf, strict=True, command_code=None, parameter_encryption=N
         parameter_encryption=parameter_encryption,
         abort_on_error=strict,
     )
-    obj = None
-    err = None
     try:
         while True:
-            events.append(next(gen))
+            e = next(gen)
+            if isinstance(e, WarningEvent):
+                r.snaps[len(r.events)] = error_details(e.error)
+            r.events.append(e)
     except StopIteration as s:
-        obj = s.value
+        r.obj = s.value
     except DOCUMENTED as e:
-        err = e
-    return events, err, obj
+        r.err = e
+        r.snaps["err"] = error_details(e)
+    except Exception as e:  # CrossHair's control flow exceptions are BaseException
+        r.crash = e
+    return r
+
+
+def decode(tpm_type, buf, strict=True, command_code=None, parameter_encryption=None):
+    """-> (events, documented error or None, returned object). Other exceptions propagate."""
+    r = decode_full(tpm_type, buf, strict, command_code, parameter_encryption)
+    if r.crash is not None:
+        raise r.crash
+    return r.events, r.err, r.obj
